@@ -1,6 +1,8 @@
 import Juniper.Proofs.BatchClose
 import Juniper.Proofs.BatchWaiter
 import Juniper.Proofs.BatchSize
+import Juniper.Proofs.BatchBg
+import Juniper.Proofs.BatchProgress
 import Juniper.Model.Skeleton
 import Juniper.Generated.Skeleton
 /-!
@@ -14,6 +16,16 @@ expiries, clock advances and `Close`. `code_is_good` is the tie: the regenerated
 `stopTimer()`/`startTimer()` call sites, deferred calls and statement facts are the ones the proofs
 in `Juniper/Proofs/Batch*.lean` are about; it is re-checked by `decide` on every run.
 
+What the liveness-flavoured clauses are proved as (nothing here says "eventually" without naming what is
+assumed): `batch_close_returns` — after `Close` every internal step strictly decreases a measure, a
+run-level bound `#internal steps ≤ 16 + 4·#items the source still hands out`, and quiescent ⇒ `Close`
+has returned; `batch_handed_to_waiter` — the overdue condition is stable until the waiter is served or
+leaves, every internal step but the hand-off `prodSend` decreases a rank, and such a step is enabled;
+`batch_waiter_sees_end` — enabledness of the closed-channel arm. Assumed, not proved: scheduler
+fairness, select fairness between the arms named in those docstrings, finitely many items after `Close`.
+`Close` is taken only while no `Next` is pending and no `Next` is called after it (Stream contract):
+"at any moment" = at any moment between consumer calls, with the goroutines in any state.
+
 Only the property theorems and their non-vacuity examples live here.
 -/
 namespace Juniper.Props.C11
@@ -25,14 +37,45 @@ theorem code_is_good : code = good := by decide
 /-- Tie 1, statement order facts the model relies on but cannot observe at quiescence: the producer
 defers `wg.Done()` first (so it runs last: the source is closed and `c` is closed before `Close`'s
 `wg.Wait()` can return), `Close` is `bgCancel(); wg.Wait()` over exactly two goroutines, the three
-channels are rendez-vous channels, and `timer.Reset` gets the same duration as `time.NewTimer`. -/
+channels are rendez-vous channels, and `timer.Reset` gets the same duration as `time.NewTimer`.
+Operand-level facts the transition relation hard-wires: `Batch` forwards `s` and `maxWait` unchanged
+to `BatchFunc`; `stopTimer` drains `timerC` exactly when `!stopped && timerC != nil` (the model's
+`stopTimer` never blocks: with Go's timers a value is in the channel whenever `Stop` reports false and
+`timerC` has not been received from — trusted runtime semantics); after a hand-over `flush` gives
+`batch` a fresh slice (the model's batches are values: a batch handed out is never written again).
+The statement lists of the batcher's branches, of which `code` reads single statements, are the
+expected ones as a whole. -/
 theorem code_order_facts :
     Gen.Batch.producerDefers = ["out.wg.Done()", "s.Close()", "close(c)"] ∧
     Gen.Batch.closeStmts = ["iter.bgCancel()", "iter.wg.Wait()"] ∧
     Gen.Batch.wgCount = 2 ∧
     Gen.Batch.unbufferedChans = Gen.Batch.chanMakes ∧
-    Gen.Batch.timerResetDur = Gen.Batch.timerDur := by
-  refine ⟨by decide, by decide, by decide, by decide, rfl⟩
+    Gen.Batch.timerResetDur = Gen.Batch.timerDur ∧
+    (Gen.Batch.batchCallArgs = ["s", "maxWait", "func"] ∧ ∀ mw, Gen.Batch.batchMaxWaitArg mw = mw) ∧
+    (Gen.Batch.stopTimerDrainCond = "!stopped && timerC != nil" ∧ Gen.Batch.stopTimerDrainChan = "timerC") ∧
+    Gen.Batch.flushBatchReset = "make([]T,0,…)" ∧
+    (Gen.Batch.fullStmts = ["stopTimer()", "if !flush() {", "return", "}"] ∧
+      Gen.Batch.firstItemStmts = ["batchStart = time.Now()", "if waitingAtEmpty {", "startTimer()", "}"] ∧
+      Gen.Batch.timerArmStmts = ["timerC = nil", "if !flush() {", "return", "}"] ∧
+      Gen.Batch.waitElapsedStmts = ["stopTimer()", "if !flush() {", "return", "}"] ∧
+      Gen.Batch.waitNotElapsedStmts = ["startTimer()"] ∧
+      Gen.Batch.waitEmptyStmts = ["waitingAtEmpty = true"]) := by
+  refine ⟨by decide, by decide, by decide, by decide, rfl, ⟨by decide, fun _ => rfl⟩, by decide, by decide, by decide⟩
+
+/-- Tie 1 for the stream's background context: the regenerated right-hand side of
+`bgCtx, bgCancel := …` is `context.WithCancel(context.Background())` (one assignment, nothing else
+ever assigns either name), the identifier `bgCancel` occurs nowhere in the package but in that
+definition, in `bgCancel: bgCancel` of the `batchStream` literal, in the field declaration and in
+`iter.bgCancel()` of `Close`; `bgCtx` occurs nowhere but as the argument of the producer's
+`s.Next(bgCtx)`, in the producer's own-cancellation guard and in the `<-bgCtx.Done()` arms of the
+hand-off and of `flush`. Hence (label `bgEnds` of the LTS, enabled iff `Code.bgMayEnd`) nothing but
+`Close` ends the background work: no deadline, no timer, no parent context. -/
+theorem bg_ctx_only_close_cancels :
+    code.BgTied ∧ code.bgMayEnd = false ∧ (∀ cfg s, step code cfg s .bgEnds = none) := by
+  refine ⟨by decide, by decide, ?_⟩
+  intro cfg s
+  have : code.bgMayEnd = false := by decide
+  simp [step, this]
 
 /-- Tie 1 for the control flow *between* the regenerated facts: the statement-kind skeletons of
 `Batch`, `BatchFunc`, its producer goroutine (three `defer`s; `for { Next; if End {break} else if <own
@@ -67,15 +110,20 @@ and the item in the producer's hand concatenate to exactly what the source has h
 batches returned by `Next` (failed calls erased) are exactly the hand-overs; always, what was handed
 out is a prefix of the source sequence; and once `Next` has reported `End`, the source did end and
 the concatenation of all returned batches **is** the source sequence. Nothing lost, nothing
-duplicated, nothing reordered, under any timing. -/
+duplicated, nothing reordered, under any timing. First conjunct (0): the regenerated facts this
+rests on beyond the arm tables — the background context ends only through `Close` (`Code.BgTied`:
+with a deadline on `bgCtx`, or `bgCancel` handed to a timer, the stream ends — `End`, or an error no
+source produced — while the source is still willing, see the examples below), and `flush` replaces the
+batch it handed out by a fresh slice. -/
 theorem batch_partition {cfg : Cfg} {s : State} (h : Reach code cfg s) :
+    (code.BgTied ∧ Gen.Batch.flushBatchReset = "make([]T,0,…)") ∧
     (s.bgCancelled = false → flat s.delivered ++ s.batch ++ inTransit s = s.pulled) ∧
     flat s.delivered <+: s.pulled ∧
     batchesOf s.results = s.delivered.map (·.items) ∧
     (.endOK ∈ s.results → s.srcTerm = some .eof ∧ (batchesOf s.results).flatten = s.pulled) := by
   have h2 := inv2_reach (reach_good h)
   have h3 := inv3_reach (reach_good h)
-  refine ⟨h2.a1, h2.a2, h2.g1, ?_⟩
+  refine ⟨⟨by decide, by decide⟩, h2.a1, h2.a2, h2.g1, ?_⟩
   intro he
   refine ⟨h3.r2 he, ?_⟩
   have := (h3.r1 _ he (Or.inl rfl)).2.2
@@ -88,6 +136,34 @@ example : ∃ s, Reach code (Cfg.ofBatch 10 2) s ∧ s.results = [.batch [7, 8],
     [.srcRet (.item 7), .prodSend, .fullRet false, .srcRet (.item 8), .nextCall true, .prodSend, .fullRet true,
      .deliver, .srcRet (.item 9), .prodSend, .fullRet false, .srcRet .eof, .prodCloseC, .recvCClosed,
      .nextCall true, .deliver, .batchExit, .nextCall true, .consClosed] rfl, by decide, by decide⟩
+
+/-- Non-vacuity of the dependence on `Code.BgTied` (1): the same code with a deadline on `bgCtx`
+(`context.WithTimeout(context.Background(), time.Minute)`). A consumer waits, nothing happens for a
+minute, the deadline passes (`bgEnds`), the source's `Next` returns `DeadlineExceeded`, which the
+producer's guard does not take for its own cancellation: `Next` reports an error although the source
+neither ended nor failed. -/
+example : ∃ s, Reach { good with bgOrigin := .deadline } (Cfg.ofBatch 10 2) s ∧ s.results = [.bgErr] ∧
+    s.srcTerm = none ∧ s.bgCancelled = false :=
+  ⟨_, reach_of_run Reach.init
+    [.nextCall true, .announce, .tick 60000, .bgEnds, .prodCancelled, .prodCloseC, .recvCClosed, .batchExit,
+     .consClosed] rfl, by decide, by decide, by decide⟩
+
+/-- (2): `bgCancel` also handed to a timer (`time.AfterFunc(time.Hour, bgCancel)`). An item is in the
+batch, the timer fires, the producer takes the `context.Canceled` for its own cancellation, the
+batcher's end-of-input `flush` takes its `<-bgCtx.Done()` arm: `Next` reports `End` although the source
+has not ended, and item 7 is lost. -/
+example : ∃ s, Reach { good with bgCancelOnlyInClose := false } (Cfg.ofBatch 10 2) s ∧ s.results = [.endOK] ∧
+    s.srcTerm = none ∧ s.pulled = [7] ∧ s.bgCancelled = false :=
+  ⟨_, reach_of_run Reach.init
+    [.srcRet (.item 7), .prodSend, .fullRet false, .tick 3600000, .bgEnds, .prodCancelled, .prodCloseC, .recvCClosed,
+     .flushAbort, .batchExit, .nextCall true, .consClosed] rfl, by decide, by decide, by decide, by decide⟩
+
+/-- (3): the producer gives the source another context (`s.Next(context.Background())`): after `Close`
+nothing can wake the producer — the state is quiescent and `Close` has not returned. -/
+example : ∃ s, Reach { good with srcNextGetsBg := false } (Cfg.ofBatch 10 2) s ∧ s.bgCancelled = true ∧
+    s.closeReturned = false ∧ s.ppc = .next ∧
+    internalLabels.all (fun l => (step { good with srcNextGetsBg := false } (Cfg.ofBatch 10 2) s l).isNone) = true :=
+  ⟨_, reach_of_run Reach.init [.close] rfl, by decide, by decide, by decide, by decide⟩
 
 /-- **Every batch is non-empty.** -/
 theorem batch_nonempty {cfg : Cfg} {s : State} (h : Reach code cfg s) :
@@ -148,18 +224,23 @@ theorem batch_underfilled_waited {cfg : Cfg} {s : State} (h : Reach code cfg s) 
     exact Or.inr (Or.inr ⟨Or.inr rfl, this.2, this.1, by omega⟩)
 
 /-- The same for `Batch`, in the property's words: a batch with fewer than `batchSize` items that is
-handed out before the source has ended has an oldest item that waited at least `maxWait`. -/
+handed out before the source has ended has an oldest item that waited at least `maxWait` — the
+`maxWait` given to `Batch`: `Batch` forwards it unchanged to `BatchFunc` (regenerated argument of that
+call, `hm` in the proof). -/
 theorem batch_underfilled_waited_batch {maxWait batchSize : Nat} (hn : 1 ≤ batchSize) {s : State}
     (h : Reach code (Cfg.ofBatch maxWait batchSize) s) :
     ∀ d ∈ s.delivered, d.items.length < batchSize →
       (d.reason = .srcEnd ∧ s.srcTerm ≠ none) ∨ d.firstAt + maxWait ≤ d.time := by
   intro d hd hlt
+  have hargs : Gen.Batch.batchCallArgs = ["s", "maxWait", "func"] := by decide
+  have hm : (Cfg.ofBatch maxWait batchSize).maxWait = maxWait := by
+    simp [Cfg.ofBatch, Gen.Batch.batchMaxWaitArg]
   have h5 := inv5_reach (sizeCfg_ofBatch maxWait batchSize hn) (reach_good h)
   rcases batch_underfilled_waited h d hd with hf | he | hw
   · have := h5.s4 d hd hf.1
     omega
   · exact Or.inl he
-  · exact Or.inr hw.2.2.2
+  · exact Or.inr (hm ▸ hw.2.2.2)
 
 example : ∃ s, Reach code (Cfg.ofBatch 10 3) s ∧
     s.delivered = [{ items := [7], firstAt := 0, start := 0, time := 10, reason := .timer, toWaiter := true }] :=
@@ -167,45 +248,103 @@ example : ∃ s, Reach code (Cfg.ofBatch 10 3) s ∧
     [.nextCall true, .announce, .srcRet (.item 7), .prodSend, .fullRet false, .tick 10, .timerExpire, .recvTimer,
      .deliver] rfl, by decide⟩
 
-/-- **…and then it is handed to a waiting consumer rather than held back.** A consumer that has
-announced itself (it is in the inner `select`) while the batch is non-empty always has the timer
-running for this batch; once `maxWait` has elapsed on the batcher's clock a step towards the hand-over
-is enabled (the timer expires or its arm is taken), and from `flush` the hand-over to this very
-consumer is enabled and makes its `Next` return the batch. -/
-theorem batch_handed_to_waiter {cfg : Cfg} {s : State} (h : Reach code cfg s)
-    (hw : s.cons = .inner) (hne : s.batch ≠ []) :
-    (s.bpc = .sel → s.timer ≠ .idle ∧ s.timerCSet = true) ∧
-    (s.bpc = .sel → s.batchStart + cfg.maxWait ≤ s.now →
-      (step code cfg s .timerExpire).isSome = true ∨ (step code cfg s .recvTimer).isSome = true) ∧
-    (∀ r, s.bpc = .flush r → ∃ s', step code cfg s .deliver = some s' ∧
-      s'.results = s.results ++ [.batch s.batch] ∧ s'.cons = .idle) := by
+/-- **…and then it is handed to a waiting consumer rather than held back.** For a consumer that has
+announced itself (it is in the inner `select` of `Next`) while the batch is non-empty:
+
+(0) regenerated facts beyond the arm tables: nothing but `Close` ends the background work
+    (`Code.BgTied`); `stopTimer`, which runs on the way to the hand-over, drains `timerC` only under
+    `!stopped && timerC != nil` (then a value is there: it does not block — runtime semantics, trusted).
+(1) **the waiter is never forgotten** (safety): at the loop's `select` the timer is running for this
+    batch, its channel is the one the `select` listens on, and its deadline is `batchStart + maxWait`
+    or has already passed; inside `full` for the batch's first item the batcher remembers the waiter
+    (`waitingAtEmpty`: it arms the timer right after the call), inside `full` for a later item the
+    timer is running; in `flush` the hand-over to this very consumer is enabled and *serves* it
+    (`Served`: its `Next` returns exactly this batch, logged as a hand-over to an announced waiter).
+(2) **once `maxWait` has elapsed** (`Overdue`: `batchStart + maxWait ≤ now` on the batcher's clock,
+    `batchStart` being this batch's):
+    (a) *stability*: whatever happens next — any label, environment included — the state is `Overdue`
+        again, or the consumer has been served with this batch, or it has left on its own expired
+        context (`Served`);
+    (b) *rank*: every step of a goroutine or of the runtime other than the hand-off `prodSend`
+        serves the consumer or strictly decreases `waitRank` (≤ 9);
+    (c) no step at all raises `waitRank` by more than `waitCost`: 3 for `prodSend` (each needs a
+        fresh item from the source), 2 for the source's end / failure (once), 0 otherwise;
+    (d) *enabledness*: a step as in (b) is enabled (the hand-over, the timer arm, the expiry of the
+        timer — its deadline has passed —, or the return of `full`: `hfull`).
+    So, unless the consumer leaves, it is served after at most `9 + 3·#prodSend + 2` further steps of
+    the goroutines. What is **not** proved and is the fairness assumption (`checks/C11.json`): that
+    Go's `select` in the batcher's loop does not take its `<-c` arm for ever while the timer arm is
+    ready and the producer keeps offering items (`prodSend`, then `fullRet false`, is a cycle of
+    constant rank), and that enabled steps are eventually taken (scheduler).
+For `bpc = exit / done` see `batch_waiter_sees_end`. -/
+theorem batch_handed_to_waiter {cfg : Cfg} (hfull : ∀ b, ∃ r, cfg.fullOK b r = true) {s : State}
+    (h : Reach code cfg s) (hw : s.cons = .inner) (hne : s.batch ≠ []) :
+    (code.BgTied ∧ Gen.Batch.stopTimerDrainCond = "!stopped && timerC != nil" ∧
+      Gen.Batch.stopTimerDrainChan = "timerC") ∧
+    ((s.bpc = .sel → s.timer ≠ .idle ∧ s.timerCSet = true ∧
+        ∀ t, s.timer = .armed t → t = s.batchStart + cfg.maxWait ∨ (s.batchStart + cfg.maxWait ≤ t ∧ t ≤ s.now)) ∧
+      (s.bpc = .inFull → s.batch.length = 1 → s.waitingAtEmpty = true) ∧
+      (s.bpc = .inFull → 2 ≤ s.batch.length → s.timer ≠ .idle ∧ s.timerCSet = true) ∧
+      (∀ r, s.bpc = .flush r → ∃ s', step code cfg s .deliver = some s' ∧ Served s s')) ∧
+    (Overdue cfg s →
+      (∀ l s', step code cfg s l = some s' → Overdue cfg s' ∨ Served s s') ∧
+      (∀ l s', l.internal = true → l ≠ .prodSend → step code cfg s l = some s' →
+        Served s s' ∨ waitRank s' < waitRank s) ∧
+      (∀ l s', step code cfg s l = some s' → Served s s' ∨ waitRank s' ≤ waitRank s + waitCost l) ∧
+      (∃ l, l.internal = true ∧ l ≠ .prodSend ∧ (step code cfg s l).isSome = true) ∧
+      waitRank s ≤ 9) := by
   have h1 := inv1_reach (reach_good h)
+  have h3 := inv3_reach (reach_good h)
   have h4 := inv4_reach (reach_good h)
   have hpos : 0 < s.batch.length := List.length_pos_iff.2 hne
+  refine ⟨⟨by decide, by decide, by decide⟩, ?_⟩
   rw [code_is_good]
-  refine ⟨?_, ?_, ?_⟩
+  refine ⟨⟨?_, ?_, ?_, ?_⟩, ?_⟩
   · intro hb
     have ht := h4.j1 hw hb hpos
-    exact ⟨ht, h1.t_set (Or.inl hb) ht⟩
-  · intro hb hel
-    have ht := h4.j1 hw hb hpos
-    have hset := h1.t_set (Or.inl hb) ht
-    cases htm : s.timer with
-    | idle => exact absurd htm ht
-    | fired => right; simp [step, hb, htm, hset, good]
-    | armed t =>
-      left
-      have := h1.t_armed (Or.inl hb) t htm
-      have hle : t ≤ s.now := by omega
-      simp [step, htm, hle]
+    exact ⟨ht, h1.t_set (Or.inl hb) ht, h1.t_armed (Or.inl hb)⟩
+  · intro hb hl; exact h4.j3 hw hb hl
+  · intro hb hl
+    have ht := h4.j4 hw hb hl
+    exact ⟨ht, h1.t_set (Or.inr hb) ht⟩
   · intro r hb
-    cases r <;> simp [step, hb, hw, good, afterFull, Gen.Batch.firstItemCond]
+    cases r <;> simp [step, hb, hw, good, afterFull, Gen.Batch.firstItemCond, Served]
+  · intro hO
+    exact ⟨fun l s' hs => waiter_stable h1 h3 hO hs, fun l s' hl hp hs => waiter_rank h1 h3 hO hl hp hs,
+      fun l s' hs => waiter_cost h1 h3 hO hs, waiter_enabled h1 h3 h4 (hfull _) hO, waitRank_le s⟩
 
-example : ∃ s, Reach code (Cfg.ofFunc 10) s ∧ s.cons = .inner ∧ s.batch = [7, 8] ∧ s.bpc = .sel ∧
-    s.batchStart + 10 ≤ s.now ∧ s.timer = .armed 10 :=
+/-- an overdue waiter at the loop's `select` with the timer still to expire … -/
+example : ∃ s, Reach code (Cfg.ofFunc 10) s ∧ Overdue (Cfg.ofFunc 10) s ∧ s.batch = [7, 8] ∧ s.bpc = .sel ∧
+    s.timer = .armed 10 ∧ waitRank s = 3 :=
   ⟨_, reach_of_run Reach.init
     [.srcRet (.item 7), .prodSend, .fullRet false, .tick 4, .nextCall true, .announce, .srcRet (.item 8),
-     .prodSend, .fullRet false, .tick 6] rfl, by decide⟩
+     .prodSend, .fullRet false, .tick 6] rfl, by decide, by decide, by decide, by decide, by decide⟩
+
+/-- … and one while the batcher is inside `full` for a second item (the state the earlier version of
+this theorem was silent about); from here `fullRet false, timerExpire, recvTimer, deliver` serves it -/
+example : ∃ s s', Reach code (Cfg.ofFunc 10) s ∧ Overdue (Cfg.ofFunc 10) s ∧ s.bpc = .inFull ∧ waitRank s = 6 ∧
+    run code (Cfg.ofFunc 10) s [.fullRet false, .timerExpire, .recvTimer, .deliver] = some s' ∧
+    s'.results = [.batch [7, 8]] ∧ s'.delivered.map (·.toWaiter) = [true] :=
+  ⟨_, _, reach_of_run Reach.init [.srcRet (.item 7), .prodSend, .fullRet false, .nextCall true, .announce,
+     .srcRet (.item 8), .prodSend, .tick 100] rfl, by decide, by decide, by decide, rfl, by decide, by decide⟩
+
+/-- **A waiting consumer learns that the stream is over.** Once the batcher has left its loop (`exit`:
+its deferred `timer.Stop(); close(out.batchC)` is the enabled step; `done`: `batchC` is closed) a
+pending `Next`, whether in the outer or in the inner `select`, has its closed-channel arm enabled, and
+taking it makes the call return `End`, or the source's error if the source had failed. (The other half
+of "not held back": what the waiter gets when there will be no further batch. Enabledness of the one
+step; that it is taken is scheduler fairness.) -/
+theorem batch_waiter_sees_end {cfg : Cfg} {s : State} (h : Reach code cfg s) (hc : s.cons ≠ .idle) :
+    (s.bpc = .exit → (step code cfg s .batchExit).isSome = true) ∧
+    (s.bpc = .done → ∃ s', step code cfg s .consClosed = some s' ∧ s'.cons = .idle ∧
+      (s'.results = s.results ++ [.endOK] ∨ s'.results = s.results ++ [.srcErr])) := by
+  have h0 := inv0_reach (reach_good h)
+  rw [code_is_good]
+  exact waiter_sees_end h0 hc
+
+example : ∃ s, Reach code (Cfg.ofBatch 10 2) s ∧ s.cons = .inner ∧ s.bpc = .done :=
+  ⟨_, reach_of_run Reach.init
+    [.nextCall true, .announce, .srcRet .eof, .prodCloseC, .recvCClosed, .batchExit] rfl, by decide, by decide⟩
 
 /-- **A source error is reported after the items that preceded it** (C08): when `Next` reports the
 source's error, the source did fail and every item it handed out before failing has been returned in
@@ -216,10 +355,16 @@ ended normally); and once the error (or the end) has been reported no later `Nex
 (0) the regenerated guard of the producer's "my own cancellation" branch is false whenever `bgCtx` is
 live, whatever the error, and the producer / `Next` have no other statement between the source's
 `Next` and `out.err = err` resp. between the closed `batchC` and `return nil, iter.err` (regenerated
-control skeletons). -/
+control skeletons); and `bgCtx`, the only other thing that can make the source's `Next` fail, ends only
+through `Close` (`Code.BgTied`, regenerated: origin of `bgCtx`, every use of `bgCancel` and of `bgCtx`).
+So the error a `Next` reports is the source's, never the background context's (`bgErr`: with a
+deadline on `bgCtx` it would be `context.DeadlineExceeded` out of nowhere — example after
+`batch_partition`). -/
 theorem batch_error_after_items {cfg : Cfg} {s : State} (h : Reach code cfg s) :
     ((∀ errEq errIs, Gen.Batch.prodCancelGuard errEq errIs false false = false) ∧
-      Gen.Skeleton.batchProducer = Model.Skeleton.batchProducer ∧ Gen.Skeleton.batchNext = Model.Skeleton.batchNext) ∧
+      Gen.Skeleton.batchProducer = Model.Skeleton.batchProducer ∧ Gen.Skeleton.batchNext = Model.Skeleton.batchNext ∧
+      code.BgTied) ∧
+    (.bgErr ∉ s.results ∧ s.bgExpired = false) ∧
     (.srcErr ∈ s.results → s.srcTerm = some .err ∧ (batchesOf s.results).flatten = s.pulled) ∧
     (s.srcTerm = some .err → .endOK ∉ s.results) ∧
     (.endOK ∈ s.results → s.srcTerm = some .eof) ∧
@@ -227,7 +372,8 @@ theorem batch_error_after_items {cfg : Cfg} {s : State} (h : Reach code cfg s) :
       ∀ l s', step code cfg s l = some s' → batchesOf s'.results = batchesOf s.results) := by
   have h2 := inv2_reach (reach_good h)
   have h3 := inv3_reach (reach_good h)
-  refine ⟨⟨by decide, by decide, by decide⟩, ?_, ?_, h3.r2, ?_⟩
+  have h0 := inv0_reach (reach_good h)
+  refine ⟨⟨by decide, by decide, by decide, by decide⟩, ⟨h0.x3, h0.x1⟩, ?_, ?_, h3.r2, ?_⟩
   · intro he
     refine ⟨h3.r3 he, ?_⟩
     have := (h3.r1 _ he (Or.inr rfl)).2.2
@@ -274,7 +420,7 @@ theorem batch_ctx_costs_nothing {cfg : Cfg} {s s' : State} (h : Reach code cfg s
     s' = { s with cons := .idle, results := s.results ++ [.ctxErr] } ∧
     batchesOf s'.results = batchesOf s.results ∧
     (s'.bgCancelled = false → flat s'.delivered ++ s'.batch ++ inTransit s' = s'.pulled) := by
-  have hp := (batch_partition (Reach.step _ h hs)).1
+  have hp := (batch_partition (Reach.step _ h hs)).2.1
   simp only [step] at hs
   split at hs
   · cases hs
@@ -286,26 +432,51 @@ example : ∃ s, Reach code (Cfg.ofBatch 10 2) s ∧ s.results = [.ctxErr, .batc
     [.srcRet (.item 7), .prodSend, .fullRet false, .nextCall true, .announce, .ctxExpire, .consCtx,
      .srcRet (.item 8), .prodSend, .fullRet true, .nextCall true, .deliver] rfl, by decide⟩
 
-/-- **Close always returns.** `Close` is `bgCancel(); wg.Wait()` over two goroutines. Once the
-background context is cancelled: it stays cancelled, every step of the producer, the batcher or the
-runtime strictly decreases `measure` (so only finitely many can happen), and a state in which none is
-enabled has both goroutines finished and `wg.Wait()` returned. Assumptions: the user's `full`
-returns (`hfull`) and the source's `Next` honours `bgCtx` (the `prodCancelled` step). That `Close` is
-`bgCancel(); wg.Wait()` over two goroutines is `code_order_facts`; first conjunct: `Close`, `flush`
-and `stopTimer` contain no other statement — nothing that could block — (regenerated control
-skeletons). -/
+/-- **Close always returns.** `Close` is `bgCancel(); wg.Wait()` over two goroutines
+(`code_order_facts`). What is proved, for every reachable state in which `bgCancel()` has run
+(`Close` is taken between consumer calls only: the Stream contract, listed as an assumption):
+
+(0) regenerated facts this rests on: `Close`, `flush` and `stopTimer` consist of the statements the
+    model has and no others (control skeletons); `bgCtx` is what the source's `Next` is given and what
+    the hand-off and `flush` select on (`Code.BgTied`); `stopTimer`'s only blocking-looking statement,
+    the drain `<-timerC`, is guarded by `!stopped && timerC != nil` — with Go's timers a value is (or
+    is about to be, asynchronous timer channels) in the channel exactly then, so it does not block: a
+    property of the runtime, trusted, not proved here;
+(1) every step of the producer, the batcher or the runtime keeps `bgCtx` cancelled and strictly
+    decreases `measure` (≤ 16);
+(2) **run-level bound**: along *any* run from here — environment steps included — the context stays
+    cancelled and `measure(end) + #internal steps ≤ measure(start) + 4 · #items`, where `#items`
+    counts the labels `srcRet (.item _)` of the run: the only way the environment can raise the
+    measure is a source that still hands out an item after `Close` (it need not look at its context
+    first). So the goroutines take at most `16 + 4 · #items` steps; *if the source hands out only
+    finitely many more items*, only finitely many internal steps can happen. (Without that assumption
+    the statement "only finitely many" is false in the model: `srcRet item; prodSend; fullRet false`
+    is a cycle of constant measure — the batcher's loop has no `<-bgCtx.Done()` arm and keeps
+    receiving, and the producer's `select` may prefer `c <- item` to `<-bgCtx.Done()` for ever.)
+(3) a state in which no internal step is enabled has both goroutines finished and `wg.Wait()`
+    returned (`closeReturned`): the only quiescent state after `Close` is "Close has returned".
+
+Assumptions, all named in `checks/C11.json`: the user's `full` returns (`hfull`); a source `Next`
+blocked on the cancelled `bgCtx` returns (the `prodCancelled` step is internal); after `Close` the
+source hands out only finitely many more items (or else: the producer's `select` between
+`c <- item` and `<-bgCtx.Done()` is fair — not formalised); for "eventually" in wall-clock terms,
+that enabled steps are taken (scheduler). -/
 theorem batch_close_returns {cfg : Cfg} (hfull : ∀ b, ∃ r, cfg.fullOK b r = true) {s : State}
     (h : Reach code cfg s) (hc : s.bgCancelled = true) :
     (Gen.Skeleton.batchClose = Model.Skeleton.batchClose ∧ Gen.Skeleton.batchFlush = Model.Skeleton.batchFlush ∧
-      Gen.Skeleton.batchStopTimer = Model.Skeleton.batchStopTimer) ∧
+      Gen.Skeleton.batchStopTimer = Model.Skeleton.batchStopTimer ∧ code.BgTied ∧
+      Gen.Batch.stopTimerDrainCond = "!stopped && timerC != nil" ∧ Gen.Batch.stopTimerDrainChan = "timerC") ∧
     (∀ l s', l.internal = true → step code cfg s l = some s' →
-      s'.bgCancelled = true ∧ measure s' < measure s) ∧
+      s'.bgCancelled = true ∧ measure s' < measure s ∧ measure s ≤ 16) ∧
+    (∀ ls s', run code cfg s ls = some s' →
+      s'.bgCancelled = true ∧ measure s' + internalCount ls ≤ measure s + 4 * itemCount ls) ∧
     (Quiescent code cfg s → s.ppc = .done ∧ s.bpc = .done ∧ s.closeReturned = true) := by
   have h1 := inv1_reach (reach_good h)
   have h3 := inv3_reach (reach_good h)
+  refine ⟨⟨by decide, by decide, by decide, by decide, by decide, by decide⟩, ?_⟩
   rw [code_is_good]
-  exact ⟨⟨by decide, by decide, by decide⟩, fun l s' hl hs => measure_decreases h1 hc hl hs,
-    fun hq => quiescent_closed h3 (hfull _) hc hq⟩
+  exact ⟨fun l s' hl hs => ⟨(measure_decreases h1 hc hl hs).1, (measure_decreases h1 hc hl hs).2, measure_le s⟩,
+    close_run_bound (reach_good h) hc, fun hq => quiescent_closed h3 (hfull _) hc hq⟩
 
 /-- the producer is ahead (blocked handing over item 9 while the batcher holds a full batch nobody
 asked for) when Close is called — the situation of the repaired deadlock -/
@@ -315,20 +486,35 @@ example : ∃ s, Reach code (Cfg.ofBatch 10 2) s ∧ s.bgCancelled = true ∧ s.
     [.srcRet (.item 7), .prodSend, .fullRet false, .srcRet (.item 8), .prodSend, .fullRet true,
      .srcRet (.item 9), .close] rfl, by decide⟩
 
+/-- why (2) counts items: after `Close` a source that ignores its context hands out item 2, the
+producer's `select` takes `c <- item`, `full` says no — the same control state, the same measure:
+three more steps for one more item -/
+example : ∃ s s', Reach code (Cfg.ofFunc 10) s ∧ s.bgCancelled = true ∧
+    run code (Cfg.ofFunc 10) s [.srcRet (.item 2), .prodSend, .fullRet false] = some s' ∧
+    measure s' = measure s ∧ s'.closeReturned = false ∧ s'.ppc = s.ppc ∧ s'.bpc = s.bpc ∧
+    internalCount [.srcRet (.item 2), .prodSend, .fullRet false] = 2 ∧
+    itemCount [.srcRet (.item 2), .prodSend, .fullRet false] = 1 :=
+  ⟨_, _, reach_of_run Reach.init [.close, .srcRet (.item 1), .prodSend, .fullRet false] rfl,
+   by decide, rfl, by decide, by decide, by decide, by decide, by decide, by decide⟩
+
 /-- **The source is closed exactly once by the time Close returns, never used after, and its Next
 and Close never overlap** (C09): the source's `Close` has been called at most once, exactly once when
 `Close` of the stream has returned; the source never saw `Next` after `Close`; while a `Next` of the
 source is pending its `Close` has not been called, and `Close` is only ever called by the goroutine
 that calls `Next`, after its last `Next` returned. The model runs the producer's deferred calls in
-the order `close(c)`, `s.Close()`, `wg.Done()`; that this is the source's order is `code_order_facts`. -/
+the order `close(c)`, `s.Close()`, `wg.Done()`; that this is the source's order is `code_order_facts`.
+First conjunct: the producer leaves its loop (and closes the source) only on the source's own
+end / error or after `Close` — `bgCtx` has no other way to end, and it is the context the source's
+`Next` is given (`Code.BgTied`, regenerated). -/
 theorem batch_source_closed_once {cfg : Cfg} {s : State} (h : Reach code cfg s) :
+    code.BgTied ∧
     s.srcCloses ≤ 1 ∧
     (s.closeReturned = true → s.srcCloses = 1) ∧
     s.srcNextAfterClose = false ∧
     (s.ppc = .next → s.srcCloses = 0) ∧
     (∀ s', step code cfg s .prodCloseSrc = some s' → s.ppc = .closeSrc) := by
   have h3 := inv3_reach (reach_good h)
-  refine ⟨?_, ?_, h3.h2, ?_, ?_⟩
+  refine ⟨by decide, ?_, ?_, h3.h2, ?_, ?_⟩
   · rw [h3.h1]; split <;> omega
   · intro hr; rw [h3.h1, (h3.h3 hr).1]; rfl
   · intro hp; rw [h3.h1, hp]; rfl
